@@ -265,3 +265,62 @@ func SortedKeys(m map[string]string) []string {
 	sort.Strings(ks)
 	return ks
 }
+
+// readRawCases reads a JSON-lines case file into generic maps (for the small machines).
+func readRawCases(path string) ([]map[string]any, error) {
+	f, err := os.Open(path)
+	if err != nil {
+		return nil, err
+	}
+	defer f.Close()
+	var out []map[string]any
+	sc := bufio.NewScanner(f)
+	sc.Buffer(make([]byte, 1<<20), 1<<26)
+	for sc.Scan() {
+		if len(sc.Bytes()) == 0 {
+			continue
+		}
+		var c map[string]any
+		if err := json.Unmarshal(sc.Bytes(), &c); err != nil {
+			return nil, fmt.Errorf("bad case line: %v", err)
+		}
+		out = append(out, c)
+	}
+	return out, sc.Err()
+}
+
+// caseID returns the "id" of a raw case (1-based position otherwise).
+func caseID(c map[string]any, pos int) int {
+	if v, ok := c["id"].(float64); ok {
+		return int(v)
+	}
+	return pos + 1
+}
+
+// summarise builds the summary of a small-machine driver run.
+func summarise(name string, rs []Result, events int) *Summary {
+	s := &Summary{Driver: name, Cases: len(rs), Events: events, Counts: map[string]int{}}
+	for _, r := range rs {
+		if r.Skip != "" {
+			s.Skipped++
+		}
+		for _, ev := range r.Events {
+			switch ev["ev"] {
+			case "Call":
+				s.Runs++
+			case "Return":
+				for _, k := range []string{"kind", "verdict", "result"} {
+					if v, ok := ev[k].(string); ok {
+						s.Counts[k+":"+v]++
+					}
+				}
+			default:
+				s.Counts["ev:"+fmt.Sprint(ev["ev"])]++
+			}
+		}
+		if len(r.Events) > 0 && len(s.Samples) < 5 && (r.ID%7 == 1 || len(rs) < 20) {
+			s.Samples = append(s.Samples, r.Events[:min(len(r.Events), 8)])
+		}
+	}
+	return s
+}
